@@ -1,7 +1,126 @@
-(* C28 - Standalone compression kernels round trip (FastLanes bit packing, FSST). Property theorems only. *)
+(* C28 - Standalone compression kernels round trip: FastLanes bit packing for every (type, width),
+   FSST compress/decompress.  Property theorems only. *)
 From LanceV Require Import Common.Base Codec.Model_FastLanes Codec.Proofs_FastLanes.
+From LanceV Require Codec.Model_Fsst Codec.Proofs_Fsst.
 Local Open Scope N_scope.
 
-Theorem C28_packed_len : forall T W, In T [8; 16; 32; 64] -> packed_len T W = fl_lanes T * W.
-Proof. exact packed_len_spec. Qed.
-Print Assumptions C28_packed_len.
+(* ================================================================== FastLanes *)
+
+(* BitPacking::unchecked_unpack(W, unchecked_pack(W, v)) = v for every element type u8/u16/u32/u64,
+   every width W <= T and EVERY block of 1024 values below 2^W; the calls do not panic, the packed
+   block has 1024*W/T words, and the initial contents of the two output buffers are irrelevant. *)
+Theorem C28_bitpack_roundtrip : forall (T W : N) (input out0 out1 : list N),
+  In T [8; 16; 32; 64] -> W <= T ->
+  length input = 1024%nat -> Forall (fun x => x < 2 ^ W) input ->
+  N.of_nat (length out0) = packed_len T W -> length out1 = 1024%nat ->
+  exists packed,
+    unchecked_pack T W input out0 = Ok packed /\
+    N.of_nat (length packed) = packed_len T W /\
+    unchecked_unpack T W packed out1 = Ok input.
+Proof. exact fl_roundtrip. Qed.
+Print Assumptions C28_bitpack_roundtrip.
+
+(* Without the assumption that the values fit the width: the kernel masks them, every value comes
+   back reduced mod 2^W and does not disturb its neighbours. *)
+Theorem C28_bitpack_roundtrip_masking : forall (T W : N) (input out0 out1 : list N),
+  In T [8; 16; 32; 64] -> W <= T ->
+  length input = 1024%nat -> Forall (fun x => x < 2 ^ T) input ->
+  N.of_nat (length out0) = packed_len T W -> length out1 = 1024%nat ->
+  exists packed,
+    unchecked_pack T W input out0 = Ok packed /\
+    N.of_nat (length packed) = packed_len T W /\
+    unchecked_unpack T W packed out1 = Ok (map (fun x => x mod 2 ^ W) input).
+Proof. exact fl_roundtrip_gen. Qed.
+Print Assumptions C28_bitpack_roundtrip_masking.
+
+(* The per-lane loops of the pack!/unpack! macros are inverse for EVERY word size T (not only the four
+   instantiated ones) and every width 0 < W <= T: the W packed words are below 2^T and unpacking them
+   yields the T values in row order. *)
+Theorem C28_bitpack_lane_any_word_size : forall (T W : N) (vals : N -> N),
+  0 < W -> W <= T -> (forall r, vals r < 2 ^ W) ->
+  let words := map snd (pack_lane T W vals) in
+  length words = N.to_nat W /\
+  Forall (fun w => w < 2 ^ T) words /\
+  unpack_lane T W (fun k => nth (N.to_nat k) words 0) = map (fun r => (r, vals r)) (rows (N.to_nat T)).
+Proof. exact fl_lane_roundtrip_allT. Qed.
+Print Assumptions C28_bitpack_lane_any_word_size.
+
+(* The transposed layout: the FastLanes index map hits every position of the 1024-block exactly once. *)
+Theorem C28_bitpack_index_bijection : forall T : N, In T [8; 16; 32; 64] ->
+  NoDup (unpack_pos T) /\ (forall i, i < 1024 <-> In i (unpack_pos T)) /\ fl_lanes T * T = 1024.
+Proof.
+  intros T HT. destruct (unpack_facts T HT) as (H1 & H2 & H3 & H4).
+  split; [exact H1|]. split; [|exact H4]. intro i. split; [apply H3 | apply H2].
+Qed.
+Print Assumptions C28_bitpack_index_bijection.
+
+(* non-vacuity / regression: concrete blocks through the executable model *)
+Example C28_bitpack_example :
+  let vals := map (fun i => (i * 2654435761 + 12345) mod 2 ^ 3) (nseq 1024) in
+  exists packed,
+    unchecked_pack 8 3 vals (repeat 170 384) = Ok packed /\ length packed = 384%nat /\
+    firstn 4 packed = [73; 146; 219; 36] /\
+    unchecked_unpack 8 3 packed (repeat 85 1024) = Ok vals.
+Proof. vm_compute. eexists. repeat split. Qed.
+
+Example C28_bitpack_sweep_small_types :
+  forallb (fun T => forallb (fun W =>
+     let vals := map (fun i => (i * 2654435761 + 12345) mod 2 ^ W) (nseq 1024) in
+     match unchecked_pack T W vals (repeat 7 (N.to_nat (packed_len T W))) with
+     | Ok p => match unchecked_unpack T W p (repeat 9 1024) with Ok u => list_eqb N.eqb u vals | _ => false end
+     | _ => false
+     end) (nseq (T + 1))) [8; 16] = true.
+Proof. vm_compute. reflexivity. Qed.
+
+(* ================================================================== FSST *)
+Import Codec.Model_Fsst Codec.Proofs_Fsst.
+
+(* The kernel pair compress_bulk / decompress_bulk, for EVERY symbol table satisfying wf_table (symbol
+   lengths 1..8, at most 255 symbols, no symbol carries the terminator byte after its first byte: the
+   harness checks this on every table the real compressor emits), whichever 2-byte symbol finalize()
+   left out of short_codes, every array of byte strings of any length (incl. empty strings, strings
+   longer than the 511-byte chunk, bytes 255 and the terminator): decompress (compress x) = x. *)
+Theorem C28_fsst_kernel_roundtrip : forall (tb : list N) (dead : option N) (strs : list (list N)) (out_cap offs_cap : N),
+  wf_table tb = true -> t_switch (parse_table tb) = true ->
+  Forall bytes_ok strs ->
+  let comp := comp_bulk (mk_enc (parse_table tb) dead) strs in
+  total_len comp * 3 <= out_cap -> N.of_nat (length strs) + 1 <= offs_cap ->
+  fsst_decompress tb comp out_cap offs_cap = Ok strs.
+Proof. exact fsst_bulk_roundtrip. Qed.
+Print Assumptions C28_fsst_kernel_roundtrip.
+
+(* The public pair fsst::compress / fsst::decompress with symbol-table construction as an arbitrary
+   function [build] (hypothesis: a table it returns satisfies wf_table and has the switch bit set):
+   whenever compress returns Ok, decompress (with the buffer sizes lance-encoding passes) returns exactly
+   the input; otherwise compress returned Err: it never panics.  Covers the copy path (< 32 KiB) too. *)
+Theorem C28_fsst_roundtrip : forall (build : list (list N) -> option (list N * option N)),
+  (forall strs tb dead, build strs = Some (tb, dead) -> wf_table tb = true /\ t_switch (parse_table tb) = true) ->
+  forall (tb0 : list N) (strs : list (list N)) (out_cap offs_cap : N) (tb : list N) (comp : list (list N)),
+    Forall bytes_ok strs ->
+    fsst_compress (build strs) tb0 strs out_cap offs_cap = Ok (tb, comp) ->
+    fsst_decompress tb comp (8 * total_len comp) (N.of_nat (length comp) + 1) = Ok strs.
+Proof. exact fsst_api_roundtrip. Qed.
+Print Assumptions C28_fsst_roundtrip.
+
+Theorem C28_fsst_compress_never_panics : forall (build : list (list N) -> option (list N * option N))
+    (tb0 : list N) (strs : list (list N)) (out_cap offs_cap : N),
+  fsst_compress (build strs) tb0 strs out_cap offs_cap <> Panic.
+Proof. exact fsst_compress_no_panic. Qed.
+Print Assumptions C28_fsst_compress_never_panics.
+
+(* The 4-byte-block decoder of decompress_bulk (five unrolled arms + two tail arms) computes the same as
+   decoding one code at a time, on every well-formed code stream, whatever follows the value in the buffer. *)
+Theorem C28_fsst_block_decoder : forall (so : N -> list N) (la : option N) (cs : list N),
+  wfb cs -> dec_str so la cs = Ok (dec_ref so cs).
+Proof. intros so la cs H. exact (dec_str_ref so la (length cs) cs (le_n _) H). Qed.
+Print Assumptions C28_fsst_block_decoder.
+
+(* non-vacuity: a hand-made table (symbols "ab", "abc", "a"; terminator 0) satisfies the hypothesis, and
+   the model really compresses with it *)
+Example C28_fsst_example :
+  wf_table ex_table = true /\ t_switch (parse_table ex_table) = true /\
+  comp_bulk (mk_enc (parse_table ex_table) None) [[97; 98; 99; 97; 98; 97; 120; 255]; []; [98; 97]]
+    = [[1; 0; 2; 255; 120; 255; 255]; []; [255; 98; 2]] /\
+  fsst_decompress ex_table [[1; 0; 2; 255; 120; 255; 255]; []; [255; 98; 2]] 80 4
+    = Ok [[97; 98; 99; 97; 98; 97; 120; 255]; []; [98; 97]].
+Proof. vm_compute. repeat split. Qed.
